@@ -133,6 +133,23 @@ def main():
                 r["name"], r["kind"], r["file"], r["what"].replace("|", "\\|"), r["hit"], r["rc"],
                 " `no-failing-input-found`" if "no-failing-input-found" in r["line"] else "",
                 r.get("changed", ""), ", ".join(r["functions"]) or "-", ", ".join(r["blocked"]) or "-", r.get("still") or "-"))
+        mut = [r for r in rows if r.get("kind") == "mutation"]
+        rew = [r for r in rows if r.get("kind") == "rewrite"]
+        stc = [r for r in rows if r.get("kind") == "structural"]
+        f.write("\n## Summary\n\n")
+        f.write("* mutations: %d of %d reported (exit 1, `VIOLATION property=T01 ... no-failing-input-found`, the replay names the function and "
+                "shows the diff of the generated definition); %d of them are changes no test input would plausibly hit.\n" % (
+                    sum(1 for r in mut if r["rc"] == 1 and r["functions"]), len(mut), sum(1 for r in mut if r["hit"].startswith(("no", "hardly")))))
+        f.write("* structural changes (loop introduced where the proof expects none, tree that does not type-check, listed function removed): "
+                "%d of %d reported.\n" % (sum(1 for r in stc if r["rc"] == 1), len(stc)))
+        f.write("* behaviour-preserving rewrites: %d of %d leave the generated definition unchanged (SSA normalises them away: %s); "
+                "%d change it but the equality proof still goes through (%s); %d break the equality proof although every property still "
+                "holds (%s) - the false alarms of this tie, reported by `./check T01` only.\n" % (
+                    sum(1 for r in rew if r["rc"] == 0 and r.get("changed") == "none"), len(rew),
+                    ", ".join(r["name"] for r in rew if r["rc"] == 0 and r.get("changed") == "none"),
+                    sum(1 for r in rew if r["rc"] == 0 and r.get("changed") != "none"),
+                    ", ".join(r["name"] for r in rew if r["rc"] == 0 and r.get("changed") != "none"),
+                    sum(1 for r in rew if r["rc"] == 1), ", ".join(r["name"] for r in rew if r["rc"] == 1)))
         f.write("\n## Replay texts (the `broken` field of the replay file: function, Coq error, diff of the generated definition)\n\n")
         for r in rows:
             if r.get("broken"):
